@@ -52,6 +52,8 @@ const (
 	c05Priv   = "/ip4/192.168.1.7/tcp/4004"
 	c05QUIC   = "/ip4/1.2.3.4/udp/4005/quic-v1"
 	c05NoTpt  = "/ip4/1.2.3.4/sctp/4006"
+	c05TCP6a  = "/ip6/2a00:1450:4001:81b::200e/tcp/4007"
+	c05TCP6b  = "/ip6/2a00:1450:4001:81b::200f/tcp/4008"
 	c05Relay0 = "/ip4/5.6.7.8/tcp/4007/p2p/%s/p2p-circuit"
 )
 
@@ -416,6 +418,8 @@ func c05Scenarios(thorough bool) []c05Scn {
 		{Name: "3 addrs hang, perPeer=2, both callers cancelled", Addrs: []string{c05TCP1, c05TCP2, c05TCP3}, Script: map[string][]string{}, Callers: []c05Caller{{Cancel: true}, {Cancel: true}}, PerPeer: 2, Ticks: []time.Duration{251 * time.Millisecond}},
 		{Name: "3 addrs hang, fd=2, caller cancelled", Addrs: []string{c05TCP1, c05TCP2, c05TCP3}, Script: map[string][]string{}, Callers: []c05Caller{{Cancel: true}}, PerPeer: 3, FD: 2, Ticks: []time.Duration{251 * time.Millisecond}},
 		{Name: "sim-connect, 3 addrs dialled at once: ok then two failures", Addrs: []string{c05TCP1, c05TCP2, c05TCP3}, Script: map[string][]string{c05TCP1: {fxOK}, c05TCP2: {fxFail}, c05TCP3: {fxFail}}, Callers: []c05Caller{{SimConnect: true}, {SimConnect: true}}, Bound: 1},
+		{Name: "quic + two ip6 tcp + ip4 tcp (one ranking group, happy-eyeballs reordering), all fail", Addrs: []string{c05QUIC, c05TCP6a, c05TCP6b, c05TCP1},
+			Script: map[string][]string{c05QUIC: {fxFail}, c05TCP6a: {fxFail}, c05TCP6b: {fxFail}, c05TCP1: {fxFail}}, Callers: one},
 		{Name: "last address fails while a caller with a new address joins", Addrs: []string{c05TCP1}, LateAddr: c05TCP2, Script: map[string][]string{c05TCP1: {fxFail}, c05TCP2: {fxOK}}, Callers: two},
 		{Name: "tcp + relay, force-direct and plain caller", Addrs: []string{c05TCP1, "RELAY"}, Script: map[string][]string{c05TCP1: {fxFail}, "RELAY": {fxOK}}, Callers: []c05Caller{{ForceDirect: true}, {}}},
 		{Name: "fd=1: ok and hang, caller 1 cancelled", Addrs: []string{c05TCP1, c05TCP2}, Script: map[string][]string{c05TCP1: {fxOK}}, Callers: []c05Caller{{}, {Cancel: true}}, FD: 1, PerPeer: 2, Ticks: []time.Duration{251 * time.Millisecond}},
